@@ -208,6 +208,35 @@ def lemma_jobs(prop, hmod, tier):
     return jobs
 
 
+def smt_jobs(prop, mod, hmod, tier, only):
+    """obligations translated from the source into SMT-LIB (vlib/smtob.py), decided by cvc5"""
+    jobs = []
+    for o in getattr(hmod, 'SMT_OBLIGATIONS', []):
+        if only and o['id'] not in only:
+            continue
+        jobs.append(dict(ob=o, mod=mod, wdir=os.path.join(WORK, prop, 'smt'),
+                         timeout=o['timeout'][1 if tier == 'thorough' else 0]))
+    return jobs
+
+
+def run_smt(job):
+    t0 = time.time()
+    res = dict(status='error', detail='no output')
+    try:
+        p = subprocess.run([PY, '-m', 'vlib.smtob', job['mod'], job['ob']['id'], job['wdir'], str(job['timeout'])],
+                           cwd=ROOT, env=ENV, capture_output=True, text=True, timeout=job['timeout'] * 12 + 60)
+        for line in p.stdout.splitlines():
+            if line.startswith('SMTOB-RESULT '):
+                res = json.loads(line[len('SMTOB-RESULT '):])
+        if res.get('detail') == 'no output':
+            res['detail'] = (p.stderr or p.stdout)[-400:]
+    except subprocess.TimeoutExpired:
+        res = dict(status='inconclusive', detail='hard timeout')
+    job['res'] = res
+    job['wall'] = time.time() - t0
+    return job
+
+
 def expand(prop, mod, hmod, tier, only=None):
     known = load_known(prop)
     jobs = []
@@ -293,10 +322,13 @@ def main(prop, mod, tier='quick', only=None, extra_evidence=None, pre_results=No
         layout_missing = layout_missing + ['group:' + g for g in groups_missing]
     workers = int(os.environ.get('VERIF_JOBS', '16'))
     ljobs = [] if only else lemma_jobs(prop, hmod, tier)
+    sjobs = smt_jobs(prop, mod, hmod, tier, only)
     with cf.ThreadPoolExecutor(workers) as ex:
         lfut = [ex.submit(run_lemma, j) for j in ljobs]
+        sfut = [ex.submit(run_smt, j) for j in sjobs]
         done = list(ex.map(run_job, jobs))
         ldone = [f.result() for f in lfut]
+        sdone = [f.result() for f in sfut]
 
     records = []
     violations = []
@@ -396,6 +428,57 @@ def main(prop, mod, tier='quick', only=None, extra_evidence=None, pre_results=No
             rec['status'] = 'discharged'
             n_dis += 1
             n_eval += len(good)
+        else:
+            rec['status'] = 'inconclusive'
+        records.append(rec)
+    for j in sdone:
+        o, r = j['ob'], j['res']
+        n_ob += 1
+        rec = dict(obligation=o['id'], kind='smt-from-source', verdict=r.get('status'), answers=r.get('answers'),
+                   queries=r.get('queries', 0), solver_wall_s=r.get('solver_s'), wall_s=round(j['wall'], 1),
+                   functions_encoded=r.get('functions', []), uninterpreted=r.get('uninterpreted', []),
+                   samples_validated=r.get('samples_validated'), reach_twin=r.get('twin'), detail=r.get('detail'),
+                   bounds=o.get('bounds', ''), encodes=o.get('encodes', []), assumptions=o.get('assumptions', []),
+                   checker_cmd='cvc5 --strings-exp --produce-models <generated query>.smt2')
+        n_eval += r.get('queries', 0)
+        if r.get('status') == 'unsat':
+            rec['status'] = 'discharged'
+            n_dis += 1
+            n_distinct += len(r.get('answers') or {})
+        elif r.get('status') == 'sat':
+            names = o['model_args']
+            confirmed = None
+            tried = []
+            for sc in r.get('sat_clauses', []):
+                args = {n: sc['model'].get(n, '') for n in names}
+                try:
+                    reason = replay_concrete(o['module'], o['impl'], (), args, names)
+                except Exception as e:  # noqa
+                    reason = None
+                    rec['replay_error'] = repr(e)
+                tried.append(dict(clause=sc['clause'], args=args, replay_reason=reason))
+                if reason:
+                    confirmed = (sc, args, reason)
+                    break
+            rec['counterexamples'] = tried
+            if confirmed:
+                sc, args, reason = confirmed
+                rec['status'] = 'violation'
+                os.makedirs(os.path.join(REPLAYS, prop), exist_ok=True)
+                rpath = os.path.join(REPLAYS, prop, '%s_%s.json' % (o['id'], sc['clause']))
+                json.dump({'property': prop, 'obligation': o['id'], 'module': o['module'], 'impl': o['impl'],
+                           'case': [], 'args': [args[n] for n in names], 'arg_names': names, 'reason': reason,
+                           'solver': 'cvc5 model of clause ' + sc['clause'],
+                           'replay_cmd': '%s -m vlib.replay --file <this file>' % PY}, open(rpath, 'w'), indent=1)
+                violations.append((o['id'], rpath, reason))
+                rec['replay'] = rpath
+            elif r.get('uninterpreted'):
+                # the encoding over-approximates constructs it does not interpret: a model that does not reproduce
+                # says nothing about the code
+                rec['status'] = 'inconclusive (counterexample of the over-approximation does not reproduce)'
+            else:
+                rec['status'] = 'harness-error'
+                harness_errors.append((o['id'], (), 'solver model does not reproduce', str(tried)[:300], ''))
         else:
             rec['status'] = 'inconclusive'
         records.append(rec)
